@@ -16,7 +16,7 @@ RULE = (
     "every generated mmCIF document within d deviations of a base document (value kinds: plain, ?, ., multi-word, containing ', containing \", "
     "multi-line, number-like; second data block; 1-3 rows; single item; extra category; key-value vs loop style; repeated/distinct source values) "
     "plus corpus mmCIF files; for each document every (category, from, to) with from/to in items + {absent, new} and category in categories + "
-    "{absent}, and every (category, item, alphabet) for replace; the output is parsed by the harness's own CIF tokenizer and compared with the "
+    "{absent}, and every (category, item, alphabet) for replace (alphabets: disjoint from the values, of exactly the needed length, too short, and colliding with the column's own values); the output is parsed by the harness's own CIF tokenizer and compared with the "
     "input: other categories/blocks/items/rows/order equal, target == source (copy) or image of the returned injective first-seen mapping "
     "(replace), untouched text when category/source is absent; transformer.main must write exactly the library's return value. "
     "non-trivial = the edit changes at least one value or adds an item; distinct = (document, operation)."
@@ -197,7 +197,7 @@ def ops_for(doc):
             for b in items + ["new_item"]:
                 yield dict(op="copy", category=cat, src=a, dst=b)
         for a in items + ["absent_item"]:
-            for alpha in ("PQRSTUVW", "exact", "short"):
+            for alpha in ("PQRSTUVW", "exact", "short", "colliding"):
                 yield dict(op="replace", category=cat, column=a, alphabet=alpha)
     yield dict(op="copy", category="absent_cat", src="id", dst="asym")
     yield dict(op="replace", category="absent_cat", column="id", alphabet="PQRSTUVW")
@@ -297,6 +297,10 @@ def run_case(case):
                 if v not in distinct:
                     distinct.append(v)
         alpha = case["alphabet"]
+        if alpha == "colliding":
+            # substitution symbols that are themselves values of the column, in an order that maps a value onto another value seen later
+            singles = [v[1] for v in distinct if v[0] == "v" and len(v[1]) == 1]
+            alpha = "".join(reversed(singles)) + "".join(c for c in "ABXY12PQRS" if c not in singles)
         if alpha == "exact":
             alpha = "PQRSTUVWXYZ"[: max(len(distinct), 1)]
         elif alpha == "short":
